@@ -146,6 +146,30 @@ theorem hamiltonian_gauge_unchanged_reorder {n : ℕ} (p : Equiv.Perm (Fin n)) (
 
 end rotation
 
+
+/-! ## reorder treats EVERY stored matrix -/
+
+/-- **`reorder_all_matrices`.**  After `System_R.reorder` the system has exactly the keys it had before, in the same
+    order, and the matrix of every key — `Ham`, `AA`, …, but also `OO`, `GG`, `SA`, `SHA`, `SR`, `SH`, `SHR`, or any
+    name a user stored — is the permuted one. -/
+theorem reorder_all_matrices {K : Type} (p : ℕ → ℕ) (mats : List (String × (ℕ → ℕ → K))) :
+    (reorderSys p mats).map Prod.fst = mats.map Prod.fst ∧
+    ∀ kv ∈ mats, (kv.1, reorderM p kv.2) ∈ reorderSys p mats := by
+  constructor
+  · unfold reorderSys; rw [List.map_map]; rfl
+  · intro kv hkv
+    unfold reorderSys
+    exact List.mem_map.mpr ⟨kv, hkv, rfl⟩
+
+/-- with a fixed list of names this fails: a matrix outside the list (`OO`) keeps the old order while the centres
+    and the listed matrices are permuted -/
+theorem reorder_fixed_keys_misses_matrix :
+    let X : ℕ → ℕ → ℚ := fun a b => ((10 * a + b : ℕ) : ℚ)
+    let out := reorderSysKeys ["Ham", "AA", "BB", "CC", "SS", "FF"] (ofListFn [1, 0]) [("Ham", X), ("OO", X)]
+    (out.map fun kv => (kv.1, kv.2 0 0)) = [("Ham", 11), ("OO", 0)] ∧
+    ((reorderSys (ofListFn [1, 0]) [("Ham", X), ("OO", X)]).map fun kv => (kv.1, kv.2 0 0)) = [("Ham", 11), ("OO", 11)] := by
+  decide +kernel
+
 /-! ## non-vacuity of the executable model -/
 
 /-- a concrete reorder: swapping two functions moves rows, columns and centres together -/
